@@ -24,7 +24,7 @@ def collect(res, reps, maxn):
         if "error" in rep:
             raise vp.Broken("depgraph executor failed: " + rep["error"])
         res.evaluations += rep["orderings"]
-        for k in ("dags", "exhaustive_dags", "dangling_checked"):
+        for k in ("dags", "exhaustive_dags", "dangling_checked", "dangling_with_unseen_namesake"):
             res.extra[k] = res.extra.get(k, 0) + rep[k]
         for s in rep["shapes"]:
             shapes.add(json.dumps(s))
